@@ -339,3 +339,88 @@ func VerifC06Assign() {
 	verifAssert("assign-persisted", err2 == nil && c2.Value() == c.Value())
 	verifReach("end")
 }
+
+// ---- prefix iteration over the model store (insertion order; harness assertions compare as sets) ----
+
+type verifKVIter struct {
+	xkv.Iterator
+	keys, vals [][]byte
+	pos        int
+}
+
+func (kv *verifKV) OpenIterator(opts xkv.IteratorOptions) (xkv.Iterator, error) {
+	it := &verifKVIter{pos: -1}
+	for _, e := range kv.entries {
+		if e.deleted {
+			continue
+		}
+		if opts.LowerBound != nil && verifBytesLess(e.k, opts.LowerBound) {
+			continue
+		}
+		if opts.UpperBound != nil && !verifBytesLess(e.k, opts.UpperBound) {
+			continue
+		}
+		it.keys = append(it.keys, e.k)
+		it.vals = append(it.vals, e.v)
+	}
+	return it, nil
+}
+
+func verifBytesLess(a, b []byte) bool {
+	for i := 0; i < len(a) && i < len(b); i++ {
+		if a[i] != b[i] {
+			return a[i] < b[i]
+		}
+	}
+	return len(a) < len(b)
+}
+
+func (it *verifKVIter) First() bool   { it.pos = 0; return it.Valid() }
+func (it *verifKVIter) Next() bool    { it.pos++; return it.Valid() }
+func (it *verifKVIter) Valid() bool   { return it.pos >= 0 && it.pos < len(it.keys) }
+func (it *verifKVIter) Key() []byte   { return it.keys[it.pos] }
+func (it *verifKVIter) Value() []byte { return it.vals[it.pos] }
+func (it *verifKVIter) Error() error  { return nil }
+func (it *verifKVIter) Close() error  { return nil }
+
+type verifRecoveryStream struct {
+	RecoveryTransportServerStream
+	req  RecoveryRequest
+	sent []Operation
+}
+
+func (s *verifRecoveryStream) Receive() (RecoveryRequest, error) { return s.req, nil }
+func (s *verifRecoveryStream) Send(r RecoveryResponse) error {
+	s.sent = append(s.sent, r.Operations...)
+	return nil
+}
+
+// VerifC06RecoveryFilter: a recovering peer that announces high-water mark hw is sent every stored operation whose
+// version is at or above hw (versions of different leaseholders can tie with hw), each exactly once, with the stored
+// value, and nothing below hw.
+func VerifC06RecoveryFilter() {
+	m := verifLen("m", 0, verifParam("m", 2))
+	kv, pre := verifStore(m)
+	rs := &recoveryServer{}
+	rs.Engine = kv
+	hw := version.Counter(verifInt64("hw"))
+	st := &verifRecoveryStream{req: RecoveryRequest{HighWater: hw}}
+	err := rs.recoverPeer(context.Background(), st)
+	verifAssert("recover-no-error", err == nil)
+	for _, p := range pre {
+		cnt := 0
+		for _, s := range st.sent {
+			if verifBytesEq(s.Key, p.Key) {
+				cnt++
+				verifAssert("recover-sends-stored-op", s.Version == p.Version && s.Leaseholder == p.Leaseholder && s.Variant == p.Variant && (p.Variant == change.VariantDelete || verifBytesEq(s.Value, p.Value)))
+			}
+		}
+		if p.Version >= hw {
+			verifAssert("recover-sends-at-or-above-high-water", cnt == 1)
+		} else {
+			verifAssert("recover-skips-below-high-water", cnt == 0)
+		}
+	}
+	verifAssert("recover-sends-nothing-else", len(st.sent) <= m)
+	verifReach("end")
+}
